@@ -9,7 +9,9 @@ zero-sized must be *wholly* covered on *every* path of T's drop glue by
   - `ManuallyDrop::<A>::drop(&mut self.<union>.<arm>)` with A's own glue complete
     (and the arm chosen consistently with the constructor, rule U), or
   - the field's own drop glue (recursively complete).
-Nothing is executed; the analysis is a forward must-dataflow over exported MIR.
+Nothing is executed; the analysis is a forward must-dataflow over exported MIR.  When a field is not covered in one of
+these shapes (element-wise loop, wipe through a re-sliced view), the verdict comes from the abstract interpreter instead
+(wiped_by_interpretation): after the drop glue every non-ZST leaf of an all-unknown instance must be the constant zero.
 """
 from facts import *
 
@@ -218,6 +220,49 @@ class Glue:
         return miss
 
 
+def wiped_by_interpretation(m, G, t):
+    """run the drop glue of type t on an instance of unknowns; returns the list of leaf paths that are not the constant zero
+    afterwards, or None if the glue cannot be interpreted"""
+    import engine
+    from interp import State, Ptr
+    from values import AInt, Struct, Arr, Enum
+    g = G.glue_of(t)
+    if g is None:
+        return None
+    try:
+        engine._INTERPS.clear()
+        I = engine.mk_interp(m, 20_000_000)
+        st = State()
+        I.fresh += 1
+        obj = ('P', 'victim', I.fresh)
+        st.mem[obj] = I.top(t)
+        status, r = engine.run(I, g, [Ptr(obj, (), None, None, None, None, True)], st)
+        if status != 'ok' or engine.failed_sites(I):
+            return None
+        bad = []
+
+        def walk(v, path):
+            if isinstance(v, AInt):
+                if v.const != 0:
+                    bad.append(path)
+            elif isinstance(v, (Struct, Enum)):
+                for i, x in enumerate(v.f):
+                    walk(x, path + '.%d' % i)
+            elif isinstance(v, Arr):
+                for i, x in enumerate(v.e):
+                    walk(x, path + '[%d]' % i)
+            else:
+                sz = m.ty(getattr(v, 'ty', None)).get('size') if getattr(v, 'ty', None) is not None else None
+                if sz != 0:
+                    bad.append(path + ':' + type(v).__name__)
+        walk(st.mem[obj], '')
+        return bad
+    except Exception:
+        return None
+    finally:
+        engine._INTERPS.clear()
+
+
 def run(chk, facts_by_config):
     for cfgname, F in facts_by_config.items():
         if 'zeroize' not in F.meta['cfg']['features']:
@@ -236,6 +281,14 @@ def run(chk, facts_by_config):
             t = drops[0]['ty']
             n_types += 1
             miss = G.missing(t)
+            how = 'must-coverage dataflow'
+            if miss:
+                # the wipe is not in a shape the place-coverage rule recognises (an element-wise loop, a wipe through
+                # as_mut_slice(), ...): decide it with the abstract interpreter instead -- the drop glue is run on an
+                # instance every leaf of which is an unknown, and afterwards every non-ZST leaf must be the constant zero
+                still = wiped_by_interpretation(m, G, t)
+                if still is not None and not still:
+                    miss, how = [], 'abstract interpretation of the drop glue: every leaf is the constant 0 afterwards'
             traits = [x for x in m.cipher_types if x['ty'] == info['ty']]
             zod = bool(traits) and 'zeroize::ZeroizeOnDrop' in traits[0]['traits']
             if miss:
@@ -245,7 +298,7 @@ def run(chk, facts_by_config):
                                   % (tyname, fld, cfgname), dict(type=tyname, field=fld, config=cfgname))
             else:
                 chk.ok('field-coverage', '%s|%s' % (cfgname, tyname),
-                       dict(type=tyname, config=cfgname, size=m.ty(t).get('size'),
+                       dict(type=tyname, config=cfgname, size=m.ty(t).get('size'), decided_by=how,
                             fields=[f['name'] for f in m.ty(t)['variants'][0]['f']] if m.ty(t)['k'] == 'adt' else []))
             if zod:
                 chk.ok('zeroize-on-drop-marker', '%s|%s' % (cfgname, tyname))
